@@ -4242,6 +4242,11 @@ func (p *Parser) parseKeyValuePairs() []*ast.KeyValuePair {
 			}
 		}
 
+		// Malformed input: nothing was consumed, stop instead of looping forever
+		if p.current.Pos == pair.Position {
+			break
+		}
+
 		pairs = append(pairs, pair)
 	}
 
